@@ -1,9 +1,9 @@
 SPECIFICATION MCSpec
 CONSTANTS
-  MAXP = 3
+  MAXP = 2
   MAXFAULT = 2
-  NLISTS = 6
-  STRIDE = 400
+  NLISTS = 5
+  STRIDE = 30
 INVARIANT C05_ProductIsTheCartesianProduct
 INVARIANT C05_SequentialOneAtATime
 INVARIANT C05_SequentialCount
